@@ -44,7 +44,10 @@ SECTION17 = ["------------------------------------------------------------------
  "* `ct.create` (harness → model): the request carries the very bytes handed to `sfs create` on stdin — VCF text, BGZF written by the harness's block writer over *flate2-compressed* (dynamic-Huffman) DEFLATE data with arbitrary cuts and empty blocks, BCF written by noodles' own writer (with INFO and extra FORMAT fields) or by the harness. The Lean driver detects the container on them, inflates, decodes, runs `createCli` on what it decoded and compares with the binary's stdout / exit status / error site; the call set in the harness's notation is carried along and must equal what the model decoded (a difference is reported as a correspondence break without a failing input). Used by C12 (40 files per quick run), C01, C08 (every GT string of the alphabet inside real VCF text and BCF int8 vectors) and C10 (fault streams incl. corrupt lines).",
  "* `sfsmodel --emit` (model → implementation): 36 container files per run are *written by the model's encoders* (`encodeContainer` with block payloads of 1, 3, 5, 7, 19, 64, 100, 1000, 5000, 65280 bytes; three column sets incl. names with blanks; 0-120 records over all genotype classes) and read by the real binary; its outcome must be `createCli` of the call set. This validates the encoders the round-trip theorems speak about against noodles' readers.", "",
  "Theorems (`Props/C12B.lean`): `inflate_stored` (the full inflate model inverts the stored-block encoder and leaves the rest of the stream untouched), `bgzf_block_roundtrip`, `bgzf_roundtrip` (decoded stream = concatenation of the chunk payloads, empty chunks included), `bgzf_partition_free` (two block partitions of one payload decode alike), `gzip_peek` (the three bytes `Format::detect` reads through the gzip decoder are the first payload bytes), `vcf_roundtrip`, `bcf_roundtrip` (for well-formed call sets `WfCallSet`: non-empty ASCII names without tab / newline, alphanumeric contig names, positions ≥ 1, one GT per column; sizes that fit the BCF length fields), `detect_encoded`, and `containers_agree_bytes`: for every well-formed call set, every container and every BGZF block size, `createFromBytesC a (encodeContainer blk … c) = some (createCli a cols recs)` — the C12 statement with nothing left abstract except threads and transports. Compressed DEFLATE blocks are handled by the model and exercised on flate2 output, but the round-trip *theorem* is for the stored encoder (no compressor is modelled).", "",
- "### 17.2 Third round of seeded changes (19, one per property)", "",
+ "Further: `bgzf_concat_any` (frames around *any* DEFLATE data — what a real compressor writes — decode to the concatenation of what the data inflate to; the hypothesis `inflate cdata = payload` is what the driver evaluates on every flate2-compressed block) and `create_schedule_free_bytes` (with the concrete codecs, `sfs create` over any chunk schedule equals `createFromBytesC` on the whole byte string). `detect_encoded` needs no well-formedness hypothesis (the CRC bound holds for any values below 2^32), `containers_agree_bytes` does (BGZF round trip needs bytes).", "",
+ "### 17.2 Constants regenerated from the source on every run (`Props/Tie.lean`)", "",
+ "The model is hand-written, but the constants it hard-wires are now *read out of the Rust source on every run*: `tools/extract_consts.py` parses the current /repo (`ALIGN`, `MAGIC`, `START`, `DETECT_PREFIX_LEN`, `BCF_MAGIC_NUMBER`, `GZIP_MAGIC_NUMBER`, the clap defaults of `--precision` / `--threads`) and rewrites `lean/SfsModel/Generated/SourceConsts.lean`; `Props/Tie.lean` proves, per property, that every constant that was located equals the model's value (`C15.source_constants`, `C15.source_alignment`, `C07.source_constants`, `C12.source_constants`, `C18.source_prefix_len`, `C02.source_constants`). A changed alignment, magic number, prefix length or default therefore breaks a proof obligation even when no generated input separates the two values (tried: `DETECT_PREFIX_LEN = 1 << 15` — the correspondence finds no failing input because every BGZF block still fits, the obligation fails, C12 and C18 report `no-failing-input-found` naming `Props/Tie.lean`). A constant that can no longer be located becomes `none`, satisfies the statements vacuously and is printed as a note: renaming a constant is not an alarm. This is the translator-style tie of the brief, applied to the part of the code where it is cheap and exact; the algorithms remain tied by the correspondence.", "",
+ "### 17.3 Third round of seeded changes (19, one per property)", "",
  "Sub-agents were told the mechanisms used in rounds 1-2 and asked for different ones. 7 of 19 were caught by the property's own quick check as it stood; 12 were first missed by it (3 of those by every check) and led to generator work — never to a looser comparison:", "",
  "* unique positions: every generated record had its own position, so anything keyed on `CHROM:POS` of the previous record was invisible (C10-C, C11-C) → consecutive records now share positions in C01 / C02 / C10 / C11 / C12, and the in-memory reader reports the record's own site;",
  "* at most four populations (C02-C: a cache key that shifts out leading populations for 5-8) → 5-8 population call sets;",
